@@ -139,6 +139,7 @@ class GlomError(Exception):
         exc_wrapper_type = type(f"GlomError.wrap({exc_type.__name__})", bases, {})
         try:
             wrapper = exc_wrapper_type(*exc.args)
+            wrapper.args = exc.args  # __init__ may have rewritten them
             wrapper.__wrapped = exc
             return wrapper
         except Exception:  # maybe exception can't be re-created
@@ -2285,7 +2286,11 @@ def glom(target, spec, **kwargs):
         if isinstance(e, GlomError):
             # need to change id or else py3 seems to not let us truncate the
             # stack trace with the explicit "raise err" below
-            err = copy.copy(e)
+            try:
+                err = copy.copy(e)
+            except Exception:  # e.g., a subclass whose __init__ does not accept e.args
+                err = e
+            err.args = e.args  # copying re-runs __init__, which may rewrite them
             err._set_wrapped(e)
         else:
             err = GlomError.wrap(e)
